@@ -6,7 +6,8 @@ model starts from the BYTES of the stream.
 `PSStackParser.nextobject` hands every keyword to `do_keyword` even while an array is open; the token-level
 model `CIDFont.runToks` has arrays already grouped.  `groupAux` therefore answers `none` ("outside the
 modelled grammar") for a keyword or an opening bracket inside an open array, an array left open at the end
-of the data, `<<` `>>` `{` `}`, and booleans (Python's `True` is an `int`); everything else — numbers,
+of the data, `<<` `>>` `{` `}`, a name inside an array (`add_cid2unichr` reads it as a glyph name through
+`name2unicode`, which belongs to C08's model) and booleans (Python's `True` is an `int`); everything else — numbers,
 strings of both spellings, names, keywords, flat arrays, a stray `]` (PSTypeError is swallowed) — is modelled.
 Import-free apart from the two models it joins.
 -/
@@ -42,7 +43,7 @@ def groupAux : List Lexer.Token → Option (List AElem) → List Tok → Option 
     | .int v => groupAux rest (some (.int v :: acc)) out
     | .str s => groupAux rest (some (.str s :: acc)) out
     | .real _ => groupAux rest (some (.other :: acc)) out
-    | .lit _ => groupAux rest (some (.other :: acc)) out
+    | .lit _ => none            -- a glyph name inside an array goes through `name2unicode`: not modelled here
     | .bool _ => none
     | .err _ => none
 
